@@ -54,10 +54,14 @@ FLOORS = {
               'feat:odd_rule_names': 100, 'hazard_free_programs': 1000, 'printer:EOL': 5, 'printer:BasedRule': 150,
               'printer:RuleInclude': 150, 'printer:Alert': 200, 'printer:Constant': 500, 'printer:Pattern': 500,
               'printer:SkipTo': 100, 'printer:SkipGroup': 100, 'printer:Gather': 50, 'printer:PositiveGather': 50,
-              'printer:Join': 50, 'printer:PositiveJoin': 50, 'printer:NamedList': 100, 'printer:OverrideList': 50},
+              'printer:Join': 50, 'printer:PositiveJoin': 50, 'printer:NamedList': 100, 'printer:OverrideList': 50,
+              'feat:long_keywords': 60, 'feat:assoc_join': 120, 'feat:assoc_join:left': 55,
+              'feat:assoc_join:right': 55, 'feat:assoc_join_multiline': 25, 'printer:LeftJoin': 55,
+              'printer:RightJoin': 55},
     'thorough': {'programs': 15000, 'recompiled': 12000, 'both_accepted': 30000, 'route:text': 2000,
                  'route:object': 9000, 'route:json': 1200, 'route:g2e': 600, 'rail_tracks_checked': 45000,
-                 'hazard_free_programs': 10000},
+                 'hazard_free_programs': 10000, 'feat:long_keywords': 700, 'feat:assoc_join': 1300,
+                 'feat:assoc_join_multiline': 300, 'printer:LeftJoin': 600, 'printer:RightJoin': 600},
 }
 N = {'quick': 2080, 'thorough': 20800}
 INPUTS = {'quick': 6, 'thorough': 8}
